@@ -2,6 +2,9 @@
 # MANIFEST.setup_cmd: build the Lean library (models, proofs, driver front-ends) offline.
 set -e
 cd "$(dirname "$0")/lean"
-lake build 2>&1 | tail -5
+# the generated modules (regenerated from /repo by every check; rebuilt only when their text changes) are built here too, so
+# that the kernel-heavy obligations (Butcher order conditions: ~3 min) are not paid inside a check
+gen=$(ls Qv/Gen/*.lean 2>/dev/null | sed 's|/|.|g; s|\.lean$||' | tr '\n' ' ')
+lake build Qv $gen 2>&1 | tail -5
 cd ..
 /venv/bin/python -c "import numpy, scipy; print('python ok')"
